@@ -75,9 +75,16 @@ def task(mod, fn, id, props, kind="proof", replay=None, **kwargs):
     return {"mod": mod, "fn": fn, "id": id, "props": props, "kind": kind, "kwargs": kwargs, "replay": replay}
 
 
+# factor applied to every time limit of an obligation that the ledger lists (it is known to complete as a proof on the unchanged
+# tree); the probe run that motivated it was > 3.5 times slower on one such obligation than the run that wrote the ledger
+LEDGER_BUDGET_SCALE = float(os.environ.get("VERIF_LEDGER_BUDGET_SCALE", "6") or 6)
+
+
 def _run_task(t):
     t0 = time.time()
     try:
+        from vf.engine import paths
+        paths.BUDGET_SCALE = LEDGER_BUDGET_SCALE if t.get("ledger") else 1.0
         m = importlib.import_module(t["mod"])
         out = getattr(m, t["fn"])(**t["kwargs"])
         d = out if isinstance(out, dict) else out.as_dict()
